@@ -430,7 +430,7 @@ Theorem step_port_subtree walk_sub rt ids i cs a m qs buf :
   Forall comp_wf cs -> cs <> [] -> args_wf a ->
   let q := Port (flatten (comps_segs cs) ++ a) m (Some qs) in
   step_port walk_sub rt ids i q buf =
-  run_all (fun b => if pruned rt b then WOk [] b else walk_sub q (ids ++ [i]) b)
+  run_all (fun b => if pruned rt b then WOk (skipped_reports rt ids i q b) b else walk_sub q (ids ++ [i]) b)
           (map (fun x => buf ++ x) (expand (comps_segs cs))) [] buf.
 Proof.
   intros Hcs Hne Ha q. unfold q, step_port.
